@@ -74,6 +74,16 @@ func c18Rules(tier string) []Rule {
 				`^\(state\.StateNodes\)\.Active\(\(\*state\.Cluster\)\.DeepCopyNodes\(\$0\.cluster\)\)$`, "provisioning schedules onto deep copies of the active state nodes")...)
 			rs = append(rs, core.InstrPresent(w, id, "PROV", "(*state.Cluster).DeepCopyNodes", `^call lo\.Map\[\*state\.StateNode, \*state\.StateNode\]\(lo\.Values\[string, \*state\.StateNode\]\(&local<\[1\]map\[string\]\*state\.StateNode>\[:\]\), fn:\(\*state\.Cluster\)\.DeepCopyNodes\$1\)$`, 1, "DeepCopyNodes maps every node")...)
 			rs = append(rs, core.InstrPresent(w, id, "PROV", "(*state.Cluster).DeepCopyNodes", `^return \(\*state\.StateNode\)\.DeepCopy\(\$0\)$`, 1, "through StateNode.DeepCopy")...)
+			// …and nothing else: no node (marked for deletion or not) is handed out as the live object
+			if mapper := w.Fn("@arg:(*state.Cluster).DeepCopyNodes|^call lo\\.Map\\[\\*state\\.StateNode, \\*state\\.StateNode\\]\\(|1"); mapper != nil {
+				for _, sk := range w.ReturnSinks(mapper, core.RetAny) {
+					if r := w.RenderInstr(sk.Ret); r != "return (*state.StateNode).DeepCopy($0)" {
+						rs = append(rs, core.Bad(id, "PROV", "PROV:(*state.Cluster).DeepCopyNodes:every-node", w.InstrPos(sk.Ret), "DeepCopyNodes hands out `"+clipStr(r, 80)+"` for some nodes: the snapshot shares a live StateNode with cluster state"))
+					}
+				}
+			} else {
+				rs = append(rs, core.Bad(id, "PROV", "PROV:(*state.Cluster).DeepCopyNodes:every-node", "", "the per-node mapping function of DeepCopyNodes cannot be resolved"))
+			}
 			// the scheduler's existing nodes wrap exactly the nodes it was given
 			rs = append(rs, core.ArgProvenance(w, id, "sched.NewScheduler", `^call \(\*sched\.Scheduler\)\.calculateExistingNodeClaims\(`, 2, `^\$4$`, "existing nodes are built from the state nodes handed in")...)
 			return rs
